@@ -1,9 +1,9 @@
 SPECIFICATION Spec
 CONSTANTS NClients = 2
-FuturesPerClient = 1
-MaxThreads = 2
-Cap = 2
-AllowRetire = TRUE
+FuturesPerClient = 2
+MaxThreads = 1
+Cap = 1
+AllowRetire = FALSE
 FixRetire = TRUE
 FixReset = TRUE
 INVARIANTS AtMostOnce JoinAfterDone QueueOK
